@@ -153,6 +153,10 @@ func getChildQueuesPreemptableResource(queue *Queue, parentPreemptableResource *
 	if len(children) == 0 {
 		return
 	}
+	// nothing to distribute: the usage above the max is already being preempted
+	if parentPreemptableResource == nil {
+		return
+	}
 
 	// Sum of all children preemptable resources
 	totalPreemptableResource := resources.NewResource()
